@@ -239,6 +239,9 @@ impl Driven for XTreeDriven {
         let roots = tracer.roots.into_inner();
         self.tok.sink.inner.sink.collect(&roots)
     }
+    fn script_remove(&self, selector: u32) -> bool {
+        self.tok.sink.inner.sink.script_remove(selector)
+    }
 }
 
 pub fn run_xml(case: &XmlCase, record_calls: bool) -> XRunObs {
